@@ -178,7 +178,7 @@ def _parse_obs(text):
 
 
 def _crash_excerpt(text, rc):
-    m = re.search(r"(ERROR: \w+Sanitizer: [^\n]*|runtime error: [^\n]*|terminate called[^\n]*)", text)
+    m = re.search(r"(TERMINATE [^\n]*|ERROR: \w+Sanitizer: [^\n]*|runtime error: [^\n]*|terminate called[^\n]*)", text)
     return ("rc=%d " % rc) + (m.group(1) if m else text[-200:].replace("\n", " | "))
 
 
@@ -259,8 +259,37 @@ CXX_TY = {"i": "int", "l": "long", "d": "double", "v": "void",
           # the move-sensitive class: parameter declared by value / const& / &&
           "m": "av::MStr", "mc": "const av::MStr&", "mr": "av::MStr&&",
           # reference results: T& / const T& to the target's pool object
-          "ri": "int&", "rl": "long&", "rd": "double&", "ki": "const int&", "kl": "const long&", "kd": "const double&"}
+          "ri": "int&", "rl": "long&", "rd": "double&", "ki": "const int&", "kl": "const long&", "kd": "const double&",
+          # declared parameter types of QL targets (and hence of retype's T_type): the string-like class Str (converting
+          # constructor Str(long)), `const T&` ("c<t>") and `T&&` ("x<t>")
+          "s": "av::Str", "ci": "const int&", "cl": "const long&", "cd": "const double&", "cs": "const av::Str&",
+          "xi": "int&&", "xl": "long&&", "xd": "double&&", "xs": "av::Str&&"}
 REF_RET = ("ri", "rl", "rd", "ki", "kl", "kd")
+PAR_CODES = ("i", "l", "d", "s", "ci", "cl", "cd", "cs", "xi", "xl", "xd", "xs")
+THREW = ("threw", "threw2")       # an exception of type K1 (av::Thrown) / K2 (av::Thrown2) reached the caller
+
+
+def threw_res(thr):
+    return THREW[int(thr) - 1]
+
+
+def par_base(p):
+    """value type of a declared parameter code"""
+    return p[1] if len(p) == 2 and p[0] in "cx" else p
+
+
+def par_mode(p):
+    """'v' by value, 'c' const T&, 'x' T&&"""
+    return p[0] if len(p) == 2 and p[0] in "cx" else "v"
+
+
+def cast_par(p, v):
+    """static_cast<T_type>(a) handed to a parameter declared T_type / initialisation of a declared parameter:
+    conversion, then binding — a const T& binds directly to a reference result of type T, everything else is a
+    (converted) temporary that lives until the call returns: the target reads the converted value"""
+    if par_mode(p) == "c":
+        return bind_cref(par_base(p), v)
+    return conv(par_base(p), v)
 
 
 def is_ref(ret):
@@ -340,15 +369,17 @@ class ExprC10:
         k = e[0]
         if k == "L":
             _, i, thr, ret, tys, _f = e
-            return ["L", str(i), "1" if thr else "0", ret, str(len(tys))] + list(tys)
+            return ["L", str(i), str(int(thr)), ret, str(len(tys))] + list(tys)
         if k == "V":
-            return ["V", str(e[1]), "1" if e[2] else "0", e[3]]
-        if k == "PL":
+            return ["V", str(e[1]), str(int(e[2])), e[3]]
+        if k in ("PL", "QL"):
             _, i, thr, ret, tys, _f = e
-            return ["PL", str(i), "1" if thr else "0", ret, str(len(tys))] + list(tys)
+            return [k, str(i), str(int(thr)), ret, str(len(tys))] + list(tys)
+        if k == "PC":
+            return ["PC", str(e[1]), e[2], e[3]]
         if k == "RL":
             _, i, thr, code, tys, _f = e
-            return ["RL", str(i), "1" if thr else "0", "1" if code[0] == "k" else "0", code[1], str(len(tys))] + list(tys)
+            return ["RL", str(i), str(int(thr)), "1" if code[0] == "k" else "0", code[1], str(len(tys))] + list(tys)
         if k == "RRR":
             return ["RRR", "1" if e[1][0] == "k" else "0", e[1][1]] + ExprC10.tokens(e[2])
         if k == "B":
@@ -381,16 +412,28 @@ class ExprC10:
         k = e[0]
         if k in ("L", "RL"):
             _, i, thr, ret, tys, fobj = e
-            targs = ", ".join([str(i), "true" if thr else "false", CXX_TY[ret]] + [CXX_TY[t] for t in tys])
+            targs = ", ".join([str(i), str(int(thr)), CXX_TY[ret]] + [CXX_TY[t] for t in tys])
             if under_retype:
                 return "sigc::ptr_fun(&av::leaf<%s>)" % targs
             return ("av::Rec<%s>()" if fobj else "&av::leaf<%s>") % targs
+        if k == "QL":
+            _, i, thr, ret, tys, fobj = e
+            targs = ", ".join([str(i), str(int(thr)), CXX_TY[ret]] + [CXX_TY[t] for t in tys])
+            if under_retype:
+                return "sigc::ptr_fun(&av::qleaf<%s>)" % targs
+            return ("av::QRec<%s>()" if fobj else "&av::qleaf<%s>") % targs
+        if k == "PC":
+            # a partial catcher: rethrows the exception in flight and handles only the listed types
+            return "av::PCatch<%d, %s, %s, %s>()" % (e[1], CXX_TY[e[2]], "true" if "1" in e[3] else "false",
+                                                    "true" if "2" in e[3] else "false")
         if k == "PL":
             _, i, thr, ret, tys, fobj = e
-            targs = ", ".join([str(i), "true" if thr else "false", CXX_TY[ret]] + [CXX_TY[t] for t in tys])
+            targs = ", ".join([str(i), str(int(thr)), CXX_TY[ret]] + [CXX_TY[t] for t in tys])
+            if under_retype:
+                return "sigc::ptr_fun(&av::pleaf<%s>)" % targs
             return ("av::PRec<%s>()" if fobj else "&av::pleaf<%s>") % targs
         if k == "V":
-            return "av::VRec<%d, %s, %s>()" % (e[1], "true" if e[2] else "false", CXX_TY[e[3]])
+            return "av::VRec<%d, %d, %s>()" % (e[1], int(e[2]), CXX_TY[e[3]])
         if k == "B":
             _, loc, bs, f = e
             # odd bound values are passed as named variables (lvalues) that are overwritten after the adaptor is built
@@ -430,8 +473,10 @@ class ExprC10:
     def natural(e):
         """result type of the expression as C++ deduces it"""
         k = e[0]
-        if k in ("L", "V", "RL", "PL"):
+        if k in ("L", "V", "RL", "PL", "QL"):
             return e[3]
+        if k == "PC":
+            return e[2]
         if k == "B":
             return ExprC10.natural(e[3])
         if k in ("H", "RT", "TO"):
@@ -453,7 +498,7 @@ class ExprC10:
         """list of adaptor kinds from the outside in (first path only), for the distribution"""
         acc = [] if acc is None else acc
         k = e[0]
-        if k in ("L", "V", "RL", "PL"):
+        if k in ("L", "V", "RL", "PL", "QL", "PC"):
             return acc
         acc.append(k)
         nxt = {"B": 3, "H": 2, "RT": 2, "RR": 2, "RRR": 2, "HR": 1, "BR": 2, "TO": 2, "SL": 3, "C1": 2, "C2": 2, "EC": 1}[k]
@@ -472,16 +517,30 @@ class ExprC10:
             _, i, thr, ret, tys, _f = e
             recv = [conv(t, a) for t, a in zip(tys, args)]
             if thr:
-                return [(i, recv)], "threw"
+                return [(i, recv)], threw_res(thr)
             s = i * 100 + sum((j + 1) * trunc(a) for j, a in enumerate(recv))
             r = "unit" if ret == "v" else (("d", s * 10 + 5) if ret == "d" else (ret, s))
             return [(i, recv)], r
+        if k == "QL":
+            # declared parameters T / const T& / T&&: each argument converted to the declared type, then bound
+            _, i, thr, ret, tys, _f = e
+            recv = [cast_par(t, a) for t, a in zip(tys, args)]
+            if thr:
+                return [(i, recv)], threw_res(thr)
+            s = i * 100 + sum((j + 1) * trunc(a) for j, a in enumerate(recv))
+            r = "unit" if ret == "v" else (("d", s * 10 + 5) if ret == "d" else (ret, s))
+            return [(i, recv)], r
+        if k == "PC":
+            # (a partial catcher called while an exception it handles is in flight)
+            _, i, ret, _hs = e
+            s = i * 100
+            return [(i, [])], "unit" if ret == "v" else (("d", s * 10 + 5) if ret == "d" else (ret, s))
         if k == "PL":
             # parameters declared const T&: the setter of compose() receives the getter's very object
             _, i, thr, ret, tys, _f = e
             recv = [bind_cref(t, a) for t, a in zip(tys, args)]
             if thr:
-                return [(i, recv)], "threw"
+                return [(i, recv)], threw_res(thr)
             s = i * 100 + sum((j + 1) * trunc(a) for j, a in enumerate(recv))
             r = "unit" if ret == "v" else (("d", s * 10 + 5) if ret == "d" else (ret, s))
             return [(i, recv)], r
@@ -491,12 +550,12 @@ class ExprC10:
             _, i, thr, code, tys, _f = e
             recv = [conv(t, a) for t, a in zip(tys, args)]
             if thr:
-                return [(i, recv)], "threw"
+                return [(i, recv)], threw_res(thr)
             s = i * 100 + sum((j + 1) * trunc(a) for j, a in enumerate(recv))
             return [(i, recv)], (code, s * 10 + 5 if code[1] == "d" else s, i)
         if k == "RRR":
             log, r = ExprC10.spec(e[2], args)
-            if r == "threw":
+            if r in THREW:
                 return log, r
             if len(r) == 3 and r[0][1] == e[1][1]:
                 return log, (e[1], r[1], r[2])         # T&(x): the same object
@@ -505,7 +564,7 @@ class ExprC10:
             _, i, thr, ret = e
             recv = [decay(a) for a in args]            # A... a: by value
             if thr:
-                return [(i, recv)], "threw"
+                return [(i, recv)], threw_res(thr)
             s = i * 100 + sum((j + 1) * trunc(a) for j, a in enumerate(recv))
             r = "unit" if ret == "v" else (("d", s * 10 + 5) if ret == "d" else (ret, s))
             return [(i, recv)], r
@@ -518,43 +577,48 @@ class ExprC10:
             idx = len(args) - 1 if e[1] == -1 else e[1]
             return ExprC10.spec(e[2], [a for j, a in enumerate(args) if j != idx])
         if k == "RT":
-            return ExprC10.spec(e[2], [conv(t, a) for t, a in zip(e[1], args)])
+            return ExprC10.spec(e[2], [cast_par(t, a) for t, a in zip(e[1], args)])   # converted to f's parameter types
         if k == "RR":
             log, r = ExprC10.spec(e[2], args)
-            return log, (r if r == "threw" else conv(e[1], r))
+            return log, (r if r in THREW else conv(e[1], r))
         if k == "HR":
             log, r = ExprC10.spec(e[1], args)
-            return log, (r if r == "threw" else "unit")
+            return log, (r if r in THREW else "unit")
         if k == "BR":
             log, r = ExprC10.spec(e[2], args)
-            return log, (r if r == "threw" else e[1])
+            return log, (r if r in THREW else e[1])
         if k == "TO":
             return ExprC10.spec(e[2], args)
         if k == "SL":
             log, r = ExprC10.spec(e[3], [conv(t, a) for t, a in zip(e[2], args)])
-            if r == "threw":
+            if r in THREW:
                 return log, r
             return log, ("unit" if e[1] == "v" else conv(e[1], r))
         if k == "C1":
             log, r = ExprC10.spec(e[2], args)
-            if r == "threw":
+            if r in THREW:
                 return log, r
             log2, r2 = ExprC10.spec(e[1], [r])
             return log + log2, r2
         if k == "C2":
             log1, r1 = ExprC10.spec(e[2], args)
-            if r1 == "threw":
+            if r1 in THREW:
                 return log1, r1
             log2, r2 = ExprC10.spec(e[3], args)
-            if r2 == "threw":
+            if r2 in THREW:
                 return log1 + log2, r2
             log3, r3 = ExprC10.spec(e[1], [r1, r2])
             return log1 + log2 + log3, r3
         if k == "EC":
             log, r = ExprC10.spec(e[1], args)
-            if r != "threw":
+            if r not in THREW:
                 return log, r
-            log2, r2 = ExprC10.spec(e[2], [])
+            c = e[2]
+            if c[0] == "PC" and str(THREW.index(r) + 1) not in c[3]:
+                # a catcher that rethrows and does not know this type: the exception proceeds to the next catcher
+                # adaptor / to the caller (documentation of exception_catch)
+                return log, r
+            log2, r2 = ExprC10.spec(c, [])      # returns c() exactly when f throws
             return log + log2, r2
         raise ValueError(k)
 
@@ -573,6 +637,31 @@ class GenC10:
         self.nid = 0
         self.p_ref = 0.15        # probability that a target whose result type is free returns T& / const T&
         self.getter_ref = False  # family switch: the getters of compose() return references, the setter takes const T&
+        self.p_qleaf = 0.6       # probability that the target of retype() declares its parameters T / const T& / T&&
+        self.p_pcatch = 0.4      # probability that the catcher of exception_catch() is a partial one
+
+    def thrown(self, allow, p=0.04):
+        """0: does not throw, 1: throws av::Thrown (K1), 2: throws av::Thrown2 (K2)"""
+        r = self.rng
+        return (1 + r.below(2)) if (allow and r.chance(p)) else 0
+
+    def pars_for(self, tys, other=None):
+        """declared parameter types for a retype target: mostly references (const T& / T&&), base type as given or Str;
+        `other`: the argument types — then the base type is always a different one (a converting temporary is needed)"""
+        r = self.rng
+        out = []
+        for j, t in enumerate(tys):
+            mode = r.choice(["c", "c", "x", "x", ""])
+            if other is not None:
+                base = r.choice([b for b in "ild" if b != other[j]] + ["s"])
+            elif mode == "x":
+                # `static_cast<T&&>(a)` is ill-formed for a const lvalue `a` of type T itself (a slot / a tuple-slicing
+                # adaptor hands its arguments on as const lvalues): without knowing the argument, T&& only over Str
+                base = "s"
+            else:
+                base = "s" if r.chance(0.25) else t
+            out.append(mode + base)
+        return tuple(out)
 
     def fresh(self):
         self.nid += 1
@@ -592,13 +681,13 @@ class GenC10:
         r = self.rng
         if want in REF_RET or (want in ("any", "nonvoid") and (force_ref or r.chance(self.p_ref))):
             code = want if want in REF_RET else r.choice("rk") + r.choice(TYS)
-            thr = allow_throw and r.chance(0.04)
+            thr = self.thrown(allow_throw)
             tys = tys if tys is not None else [r.choice(TYS) for _ in range(n)]
             return ("RL", self.fresh(), thr, code, tuple(tys), (not ptr_only) and r.chance(0.35))
         ret = want if want in ("i", "l", "d") else r.choice(["i", "l", "d"] if want == "nonvoid" else ["v", "i", "l", "d"])
         if want == "v":
             ret = "v"
-        thr = allow_throw and r.chance(0.04)
+        thr = self.thrown(allow_throw)
         if tys is None and not ptr_only and r.chance(0.4):
             return ("V", self.fresh(), thr, ret)
         tys = tys if tys is not None else [r.choice(TYS) for _ in range(n)]
@@ -611,7 +700,7 @@ class GenC10:
         if not force_ref and any(is_ref(x) for x in nats) and r.chance(0.9 if self.getter_ref else 0.5):
             ret = want if want in ("i", "l", "d", "v") else r.choice(["i", "l", "d"] if want == "nonvoid" else ["v", "i", "l", "d"])
             tys = tuple(base_ty(x) if (x != "v" and r.chance(0.8)) else r.choice(TYS) for x in nats)
-            return ("PL", self.fresh(), (not no_throw) and r.chance(0.04), ret, tys, r.chance(0.4))
+            return ("PL", self.fresh(), self.thrown(not no_throw), ret, tys, r.chance(0.4))
         return self.leaf(len(nats), want, allow_throw=not no_throw, force_ref=force_ref)
 
     def node(self, kind, n, want, inner, pos=None, nbound=None, no_throw=False, force_ref=False):
@@ -639,6 +728,11 @@ class GenC10:
         if kind == "RT":
             tys = tuple(r.choice(TYS) for _ in range(n))
             f = inner(n, want, retype_tys=tys)
+            if f[0] == "L" and r.chance(self.p_qleaf):
+                # the target declares its parameters T / const T& / T&& (retype deduces T_type... from them): an argument
+                # of another type is converted into a temporary to which the reference parameter is bound
+                pars = self.pars_for(tys)
+                return ("RT", pars, ("QL", f[1], f[2], f[3], pars, False))
             if f[0] in ("L", "RL"):
                 return ("RT", tys, f)
             nat = base_ty(ExprC10.natural(f))      # slot<T&(...)>::operator() does not compile: a slot returns a value
@@ -679,7 +773,11 @@ class GenC10:
             return ("C2", s, g1, g2)
         if kind == "EC":
             f = inner(n, want, force_throw=r.chance(0.6))
-            c = self.leaf(0, ExprC10.natural(f), allow_throw=False)
+            nat = ExprC10.natural(f)
+            if not is_ref(nat) and r.chance(self.p_pcatch):
+                # a partial catcher: handles K1 only, K2 only, or both; what it does not handle must pass through
+                return ("EC", f, ("PC", self.fresh(), nat, r.choice(["1", "1", "2", "12"])))
+            c = self.leaf(0, nat, allow_throw=False)
             return ("EC", f, c)
         raise ValueError(kind)
 
@@ -690,7 +788,7 @@ class GenC10:
             lf = self.leaf(n, want, allow_throw=not no_throw, ptr_only=retype_tys is not None, tys=retype_tys,
                            force_ref=force_ref)
             if force_throw and not no_throw:
-                lf = lf[:2] + (True,) + lf[3:]
+                lf = lf[:2] + (1 + self.rng.below(2),) + lf[3:]
             return lf
         kind, rest = chain[0], chain[1:]
         if retype_tys is not None:
@@ -726,6 +824,77 @@ class GenC10:
             ret = r.choice(["i", "l", "d"])     # slot<void(...)> cannot wrap a value-returning functor
         return {"expr": e, "sig": sig, "args": args, "route": route, "ret": ret}
 
+    # ---------------------------------------------------------------- retype over reference parameters, partial catchers
+    def wrap_simple(self, e, wrap, sig, args):
+        """one adaptor around e that leaves its arguments alone (TO, HR, RR, EC with a total catcher, SL) or adds one
+        (H: an extra hidden argument; B: the last argument becomes a bound value)"""
+        r = self.rng
+        nat = ExprC10.natural(e)
+        if wrap == "TO":
+            return ("TO", 1, e), sig, args
+        if wrap == "HR":
+            return ("HR", e), sig, args
+        if wrap == "RR" and nat != "v":
+            return ("RR", r.choice(TYS), e), sig, args
+        if wrap == "ECT":
+            return ("EC", e, self.leaf(0, nat, allow_throw=False)), sig, args
+        if wrap == "SL" and not any(len(t) > 1 for t in sig):
+            return ("SL", base_ty(nat), tuple(sig), e), sig, args
+        if wrap == "H" and len(sig) < 6:
+            t = r.choice(TYS)
+            return ("H", -1, e), tuple(sig) + (t,), tuple(args) + (self.value(t, len(sig)),)
+        if wrap == "B" and len(sig) >= 1:
+            return ("B", -1, (args[-1],), e), tuple(sig[:-1]), tuple(args[:-1])
+        return e, sig, args
+
+    def retype_case(self, n, route, wrap=None):
+        """retype(ptr_fun(&f)) where f declares its parameters `const T&` / `T&&` / `T` and EVERY argument has another
+        type than the parameter: each conversion creates a temporary that must live until f returns"""
+        r = self.rng
+        self.nid = 0
+        n = max(1, n)
+        sig = tuple(r.choice(TYS) for _ in range(n))
+        args = tuple(self.value(t, p) for p, t in enumerate(sig))
+        pars = self.pars_for(sig, other=sig)
+        if all(par_mode(p) == "v" for p in pars):
+            pars = ("c" + par_base(pars[0]),) + pars[1:]
+        ret = r.choice(["v", "i", "l", "d"])
+        e = ("RT", pars, ("QL", self.fresh(), 0, ret, pars, False))
+        e, sig, args = self.wrap_simple(e, wrap, sig, args)
+        return {"expr": e, "sig": tuple(sig), "args": tuple(args), "route": route, "ret": base_ty(ExprC10.natural(e))}
+
+    def catch_case(self, n, route, shape, x, wrap=None):
+        """exception_catch(f, c) where f throws type x (1: K1, 2: K2) and the catcher is a partial one.
+        shapes: "unhandled" (c handles only the other type: the exception must reach the caller), "handled",
+        "nested-total" / "nested-partial" (an enclosing exception_catch whose catcher handles it), "nested-none" (two
+        partial catchers that both let it pass), "total" (a catcher that handles everything)"""
+        r = self.rng
+        self.nid = 0
+        sig = tuple(r.choice(TYS) for _ in range(n))
+        args = tuple(self.value(t, p) for p, t in enumerate(sig))
+        ret = r.choice(["v", "i", "l", "d"])
+        other = "2" if x == 1 else "1"
+        mine = r.choice([str(x), "12"])
+        f = ("L", self.fresh(), x, ret, tuple(r.choice(TYS) for _ in range(n)), r.chance(0.4))
+        pc = lambda hs: ("PC", self.fresh(), ret, hs)
+        tot = lambda: self.leaf(0, ret, allow_throw=False)
+        if shape == "unhandled":
+            e = ("EC", f, pc(other))
+        elif shape == "handled":
+            e = ("EC", f, pc(mine))
+        elif shape == "total":
+            e = ("EC", f, tot())
+        elif shape == "nested-total":
+            e = ("EC", ("EC", f, pc(other)), tot())
+        elif shape == "nested-partial":
+            e = ("EC", ("EC", f, pc(other)), pc(mine))
+        elif shape == "nested-none":
+            e = ("EC", ("EC", f, pc(other)), pc(other))
+        else:
+            raise ValueError(shape)
+        e, sig, args = self.wrap_simple(e, wrap, sig, args)
+        return {"expr": e, "sig": tuple(sig), "args": tuple(args), "route": route, "ret": base_ty(ExprC10.natural(e))}
+
     # ---------------------------------------------------------------- move-sensitive arguments (MStr)
     # categories of an MStr argument as a call operator sees it: "rv" rvalue (T_arg deduced as MStr), "rvE" rvalue under
     # an explicit T_arg = MStr&& (directly inside slot<R(MStr&&)>), "lv", "clv"; numeric positions are "n"
@@ -736,7 +905,7 @@ class GenC10:
         ret = want if want in ("i", "l", "d") else r.choice(["i", "l", "d"] if want == "nonvoid" else ["v", "i", "l", "d"])
         if want == "v":
             ret = "v"
-        thr = allow_throw and r.chance(0.04)
+        thr = self.thrown(allow_throw)
         if r.chance(0.3):
             return ("V", self.fresh(), thr, ret)        # template<class... A> operator()(A... a): by value
         ps = [r.choice(TYS) if t != "m" else r.choice(self.M_LEGAL[c]) for t, c in zip(tys, cats)]
@@ -858,7 +1027,7 @@ def c10_expected(c):
     """documented behaviour for the route: the adaptor's documented call, the slot/signal returning it
     converted to the declared return type"""
     log, r = ExprC10.spec(c["expr"], list(c["args"]))
-    if c["route"] != "D" and r != "threw":
+    if c["route"] != "D" and r not in THREW:
         r = "unit" if c["ret"] == "v" else conv(c["ret"], r)
     return show_obs(log, r)
 
@@ -902,7 +1071,7 @@ def c10_body(c, local_id):
 def c10_enters_nullary_bind_return(e, n):
     """does a call of e with n arguments reach a bind_return adaptor with zero arguments (its nullary overload)"""
     k = e[0]
-    if k in ("L", "V", "RL", "PL"):
+    if k in ("L", "V", "RL", "PL", "QL", "PC"):
         return False
     if k == "BR":
         return n == 0 or c10_enters_nullary_bind_return(e[2], n)
@@ -926,6 +1095,39 @@ def c10_enters_nullary_bind_return(e, n):
     return False
 
 
+def c10_retype_temporaries(c):
+    """for the distribution: how many reference parameters of retype targets are bound to a converting temporary
+    (argument type != parameter type), by kind.  Walks the first path, tracking the argument types."""
+    out = {"const T&": 0, "T&&": 0, "Str": 0}
+    found = [False]
+
+    def walk(e, tys):
+        k = e[0]
+        if k == "RT":
+            for p, t in zip(e[1], tys):
+                if par_mode(p) != "v" and par_base(p) != t:
+                    found[0] = True
+                    out["const T&" if par_mode(p) == "c" else "T&&"] += 1
+                    if par_base(p) == "s":
+                        out["Str"] += 1
+            walk(e[2], [par_base(p) for p in e[1]])
+        elif k == "B":
+            loc = len(tys) if e[1] == -1 else e[1]
+            walk(e[3], tys[:loc] + [b[0] for b in e[2]] + tys[loc:])
+        elif k == "H":
+            idx = len(tys) - 1 if e[1] == -1 else e[1]
+            walk(e[2], [t for j, t in enumerate(tys) if j != idx])
+        elif k == "SL":
+            walk(e[3], [t[0] for t in e[2]])
+        elif k in ("RR", "RRR", "BR", "TO", "C1", "C2"):
+            walk(e[2], tys)
+        elif k in ("HR", "EC"):
+            walk(e[1], tys)
+
+    walk(c["expr"], [t[0] for t in (c["sig"] if c["route"] != "D" else [a[0] for a in c["args"]])])
+    return out if found[0] else None
+
+
 def c10_norm_impl(s):
     if s is None or s.startswith("crash:") or s.startswith("nocompile:"):
         return s
@@ -944,15 +1146,19 @@ def c10_arity_ok(e, n):
     k = e[0]
     if k == "V":
         return True
-    if k in ("L", "RL", "PL"):
+    if k in ("L", "RL", "PL", "QL"):
         return len(e[4]) == n
+    if k == "PC":
+        return n == 0
     if k == "B":
         return (e[1] == -1 or e[1] <= n) and c10_arity_ok(e[3], n + len(e[2]))
     if k == "H":
         return n >= 1 and (e[1] == -1 or e[1] < n) and c10_arity_ok(e[2], n - 1)
     if k == "RT":
         f = e[2]
-        sig = f[4] if f[0] in ("L", "RL") else (f[2] if f[0] == "SL" else None)
+        # T_type... = the declared parameter types of the functor retype() is given (pointer_functor / slot)
+        sig = (f[4] if f[0] in ("L", "RL", "QL") else (tuple("c" + t for t in f[4]) if f[0] == "PL" else
+                                                      (f[2] if f[0] == "SL" else None)))
         return sig is not None and tuple(sig) == tuple(e[1]) and len(e[1]) == n and c10_arity_ok(f, n)
     if k in ("RR", "RRR", "BR", "TO"):
         return c10_arity_ok(e[2], n)
@@ -973,6 +1179,16 @@ def c10_arity_ok(e, n):
 #  C11
 # ====================================================================================================
 PK_CXX = {"v": "av::Obj", "l": "av::Obj&", "c": "const av::Obj&", "r": "av::Obj&&"}
+PK_CXX_D = {"v": "av::DObj", "l": "av::DObj&", "c": "const av::DObj&", "r": "av::DObj&&"}     # static type: the derived class
+
+
+def pk_cxx(k, cls="b"):
+    return (PK_CXX_D if cls == "d" else PK_CXX)[k]
+
+
+def c11_cls(c):
+    """static class of the emitter's objects per position: 'b' av::Obj, 'd' av::DObj (derived from Obj)"""
+    return c.get("cls") or "b" * len(c["sig"])
 LEGAL = {"lv": "vlc", "clv": "vc", "xvD": "vcr", "xvE": "vcr"}
 FWD_KINDS = ["RR", "HR", "BR", "EC", "TO", "C1"]
 KINDS11 = ["Bi", "B", "Hi", "H", "RT", "SL", "C2"] + FWD_KINDS
@@ -1010,6 +1226,11 @@ class ExprC11:
         if k == "L":
             _, i, ptr, retv, pks = e
             return ["L", str(i), "1" if (ptr and not getter) else "0", "1" if retv else "0", str(len(pks))] + list(pks)
+        if k == "M":
+            # unbound sigc::mem_fun(&av::Obj::meth): `der` the object argument's static type is the derived class,
+            # `cm` const method, `pks` the method's own parameters
+            _, i, der, cm, retv, pks = e
+            return ["M", str(i), "1" if der else "0", "1" if cm else "0", "1" if retv else "0", str(len(pks))] + list(pks)
         if k == "B":
             _, loc, bs, f = e
             return ["B", str(loc), str(len(bs))] + ["%s:%d" % (b[0], b[1]) for b in bs] + ExprC11.tokens(f)
@@ -1034,6 +1255,8 @@ class ExprC11:
         k = e[0]
         if k == "L":
             return "int" if e[3] else "void"
+        if k == "M":
+            return "int" if e[4] else "void"
         if k == "B":
             return ExprC11.natural(e[3])
         if k in ("H", "RT"):
@@ -1059,6 +1282,10 @@ class ExprC11:
             if under_retype:
                 return "sigc::ptr_fun(&av::oleaf<%s>)" % targs
             return ("&av::oleaf<%s>" if ptr else "av::ORec<%s>()") % targs
+        if k == "M":
+            _, i, der, cm, retv, pks = e
+            targs = ", ".join([str(i), "true" if retv else "false"] + [PK_CXX[p] for p in pks])
+            return "sigc::mem_fun(&av::Obj::%s<%s>)" % ("cmeth" if cm else "meth", targs)
         if k == "B":
             _, loc, bs, f = e
             names = []
@@ -1087,7 +1314,8 @@ class ExprC11:
         if k == "C2":
             return "sigc::compose(&av::set2<%d>, %s, %s)" % (e[1], ExprC11.cxx(e[2]), ExprC11.cxx(e[3]))
         if k == "SL":
-            return "sigc::slot<%s(%s)>(%s)" % (ExprC11.natural(e), ", ".join(PK_CXX[p] for p in e[1]),
+            cls = e[3] if len(e) > 3 else "b" * len(e[1])
+            return "sigc::slot<%s(%s)>(%s)" % (ExprC11.natural(e), ", ".join(pk_cxx(p, q) for p, q in zip(e[1], cls)),
                                               ExprC11.cxx(e[2]))
         raise ValueError(k)
 
@@ -1095,7 +1323,7 @@ class ExprC11:
     def kinds(e, acc=None):
         acc = [] if acc is None else acc
         k = e[0]
-        if k == "L":
+        if k in ("L", "M"):
             return acc
         acc.append(k)
         nxt = {"B": 3, "H": 2, "RT": 2, "RR": 1, "HR": 1, "BR": 2, "EC": 1, "TO": 1, "C1": 2, "SL": 2, "C2": 2}[k]
@@ -1105,12 +1333,12 @@ class ExprC11:
     def bounds(e, acc=None):
         acc = [] if acc is None else acc
         k = e[0]
-        if k == "L":
+        if k in ("L", "M"):
             return acc
         if k == "B":
             acc.extend(e[2])
         for x in e[1:]:
-            if isinstance(x, tuple) and x and isinstance(x[0], str) and x[0] in ("L", "B", "H", "RT", "RR", "HR", "BR",
+            if isinstance(x, tuple) and x and isinstance(x[0], str) and x[0] in ("L", "M", "B", "H", "RT", "RR", "HR", "BR",
                                                                              "EC", "TO", "C1", "SL", "C2"):
                 ExprC11.bounds(x, acc)
         return acc
@@ -1124,7 +1352,7 @@ def c11_f7(case):
 
     def walk(e, cats, explicit):
         k = e[0]
-        if k == "L":
+        if k in ("L", "M"):
             return False
         if not explicit:
             cats = ["xvD" if c == "xvE" else c for c in cats]
@@ -1195,11 +1423,16 @@ class IdealC11:
             for b in ExprC11.bounds(s):
                 self.vals[("s" if b[0] == "v" else "b", b[1] % 100)] = b[2]
         res = "void" if c["kind"] == "V" else 0
+        if c.get("route") == "D":
+            # the functor called directly with the caller's objects as lvalues (std::as_const for a `c` position)
+            items = [(("e", i), "clv" if k == "c" else "lv") for i, k in enumerate(c["sig"])]
+            r = self.sim(c["slots"][0], items, False)
+            return "void" if r is None else r
         for s in c["slots"]:
             items = []
             for i, k in enumerate(c["sig"]):
                 cat = take_cat(k, "lv")
-                if c["kind"] == "I":
+                if c["kind"] == "I" and c.get("route") != "S":
                     cat = named_cat(cat)
                 items.append((("e", i), cat))
             r = self.sim(s, items, True)
@@ -1217,6 +1450,30 @@ class IdealC11:
             for pk, (d, cat) in zip(pks, items):
                 if pk == "v":
                     own = self.construct(d, cat, force_copy=ptr and not getter)
+                    params.append((own, True, self.label(d)))
+                elif pk == "c":
+                    params.append((d, False, self.label(d)))
+                else:
+                    params.append((d, cat != "clv", self.label(d)))
+            rec = []
+            total = 0
+            for pos, (key, writable, lab) in enumerate(params):
+                seen = self.vals[key]
+                rec.append((lab, seen))
+                total += seen
+                if writable:
+                    self.vals[key] = seen + 100 * (i + 1) + pos
+            self.calls.append((i, rec))
+            return 1000 * (i + 1) + total if retv else None
+        if k == "M":
+            # the property for an unbound member functor f(obj, args...): the method runs on the passed object itself
+            # (`this` is listed as parameter 0), the method's own parameters as for any target
+            _, i, der, cm, retv, pks = e
+            (d0, cat0), rest = items[0], items[1:]
+            params = [(d0, (not cm) and cat0 != "clv", self.label(d0))]
+            for pk, (d, cat) in zip(pks, rest):
+                if pk == "v":
+                    own = self.construct(d, cat, force_copy=True)
                     params.append((own, True, self.label(d)))
                 elif pk == "c":
                     params.append((d, False, self.label(d)))
@@ -1328,8 +1585,11 @@ def c11_monitor(case, obs):
             by_value_decl = ly.startswith("e") and case["sig"][int(ly[1:])] == "v"
             if ly != "x" and lx != ly and not by_value_decl:
                 kind = "the emitter's object" if ly.startswith("e") else "the std::ref-bound object"
-                return ("target %s parameter %d must be %s %s but is %s (a copy)" % (ida, pos, kind, ly,
-                                                                                     "another object" if lx == "x" else lx))
+                what = "parameter %d" % pos
+                if pos == 0 and int(ida) in c11_member_ids(case):
+                    what = "`this` of the member function (parameter 0: the object argument)"
+                return ("target %s %s must be %s %s but is %s (a copy)" % (ida, what, kind, ly,
+                                                                           "another object" if lx == "x" else lx))
             if vx != vy:
                 return ("target %s parameter %d saw value %s, the emitted/current value is %s" % (ida, pos, vx, vy))
     for o, i in zip(obs["objs"], ideal["objs"]):
@@ -1343,6 +1603,37 @@ def c11_monitor(case, obs):
     return None
 
 
+def c11_member_ids(case):
+    ids = set()
+
+    def walk(e):
+        if e[0] == "M":
+            ids.add(e[1])
+        for x in e[1:]:
+            if isinstance(x, tuple) and x and isinstance(x[0], str) and len(x[0]) <= 2 and x[0].isupper():
+                walk(x)
+
+    for s in case["slots"]:
+        walk(s)
+    return ids
+
+
+def c11_member_targets(e, below=False, bk=None):
+    """[(member-functor leaf, below an adaptor?, kind of the bound object when bind<0> supplies the object)]"""
+    k = e[0]
+    if k == "M":
+        return [(e, below, bk)]
+    if k == "L":
+        return []
+    if k == "B":
+        return c11_member_targets(e[3], True, e[2][0][0] if e[1] == 0 else None)
+    out = []
+    for x in e[1:]:
+        if isinstance(x, tuple) and x and isinstance(x[0], str) and len(x[0]) <= 2 and x[0].isupper():
+            out += c11_member_targets(x, True, None)
+    return out
+
+
 def c11_line(c):
     extra = []
     seen = set()
@@ -1351,7 +1642,8 @@ def c11_line(c):
             if b[1] not in seen:
                 seen.add(b[1])
                 extra.append("%d:%d" % (b[1], b[2]))
-    toks = ["c11", c["kind"], str(len(c["sig"]))] + list(c["sig"]) + [str(len(c["vals"]))] + [str(v) for v in c["vals"]]
+    kind = ("D" + c["kind"]) if c.get("route") == "D" else c["kind"]
+    toks = ["c11", kind, str(len(c["sig"]))] + list(c["sig"]) + [str(len(c["vals"]))] + [str(v) for v in c["vals"]]
     toks += [str(len(extra))] + extra + [str(len(c["slots"]))]
     for s in c["slots"]:
         toks += ExprC11.tokens(s)
@@ -1359,10 +1651,12 @@ def c11_line(c):
 
 
 def c11_body(c, local_id):
-    b = ["  av::obegin();"]
+    b = ["  av::obegin(%d);" % local_id]
     n = len(c["sig"])
+    cls = c11_cls(c)
+    route = c.get("route", "G")
     for i, v in enumerate(c["vals"]):
-        b.append('  av::Obj e%d(%d); av::track(&e%d, "e%d");' % (i, v, i, i))
+        b.append('  av::%s e%d(%d); av::track(&e%d, "e%d");' % ("DObj" if cls[i] == "d" else "Obj", i, v, i, i))
     seen = set()
     for s in c["slots"]:
         for bd in ExprC11.bounds(s):
@@ -1370,21 +1664,33 @@ def c11_body(c, local_id):
                 continue
             seen.add(bd[1])
             j = bd[1] % 100
+            ty = "DObj" if (len(bd) > 3 and bd[3] == "d") else "Obj"
             if bd[0] == "v":
-                b.append("  av::Obj s%d(%d);" % (j, bd[2]))
+                b.append("  av::%s s%d(%d);" % (ty, j, bd[2]))
             else:
-                b.append('  av::Obj b%d(%d); av::track(&b%d, "b%d");' % (j, bd[2], j, j))
+                b.append('  av::%s b%d(%d); av::track(&b%d, "b%d");' % (ty, j, bd[2], j, j))
     ret = "void" if c["kind"] == "V" else "int"
     b.append('  std::string res = "void";')
     b.append("  {")
-    b.append("    sigc::signal<%s(%s)> sig;" % (ret, ", ".join(PK_CXX[k] for k in c["sig"])))
-    for s in c["slots"]:
-        b.append("    sig.connect(%s);" % ExprC11.cxx(s))
+    sigt = "%s(%s)" % (ret, ", ".join(pk_cxx(k, q) for k, q in zip(c["sig"], cls)))
     args = ", ".join(("std::move(e%d)" if k == "r" else "e%d") % i for i, k in enumerate(c["sig"]))
-    if c["kind"] == "V":
-        b.append("    sig.emit(%s);" % args)
+    if route == "D":
+        # direct call of the functor with the caller's objects as lvalues
+        b.append("    auto f = %s;" % ExprC11.cxx(c["slots"][0]))
+        args = ", ".join(("std::as_const(e%d)" if k == "c" else "e%d") % i for i, k in enumerate(c["sig"]))
+        call = "f(%s)" % args
+    elif route == "S":
+        b.append("    sigc::slot<%s> sl(%s);" % (sigt, ExprC11.cxx(c["slots"][0])))
+        call = "sl(%s)" % args
     else:
-        b.append("    res = std::to_string(sig.emit(%s));" % args)
+        b.append("    sigc::signal<%s> sig;" % sigt)
+        for s in c["slots"]:
+            b.append("    sig.connect(%s);" % ExprC11.cxx(s))
+        call = "sig.emit(%s)" % args
+    if c["kind"] == "V":
+        b.append("    %s;" % call)
+    else:
+        b.append("    res = std::to_string(%s);" % call)
     b.append("  }")
     objs = ", ".join("&%s%d" % d for d in c11_tracked(c))
     b.append("  av::ofinish(%d, {%s}, res);" % (local_id, objs))
@@ -1401,12 +1707,29 @@ class GenC11:
         self.nid += 1
         return self.nid - 1
 
-    def bound(self, kind=None):
+    def bound(self, kind=None, cls=None):
         r = self.rng
         k = kind or r.choice("vrc")
         j = self.nb
         self.nb += 1
+        if cls is not None:
+            return (k, (200 if k == "v" else 100) + j, 40 + 3 * j + r.below(3), cls)      # cls: 'b' Obj / 'd' DObj
         return (k, (200 if k == "v" else 100) + j, 40 + 3 * j + r.below(3))
+
+    def memleaf(self, cats, clss, want, nomut):
+        """unbound sigc::mem_fun(&av::Obj::meth) as the target: the first incoming argument is the object.  Returns None
+        when the first argument cannot be the object of a member functor (no argument / an rvalue)."""
+        r = self.rng
+        if not cats or cats[0] not in ("lv", "clv"):
+            return None
+        cm = cats[0] == "clv" or nomut or r.chance(0.25)
+        pks = ""
+        for c in cats[1:]:
+            legal = LEGAL[c]
+            if nomut:
+                legal = "".join(x for x in legal if x in "vc")
+            pks += r.choice(legal)
+        return ("M", self.fresh(), clss[0] == "d", cm, want == "int", pks)
 
     def leaf(self, cats, want, nomut, ptr_only=False, pks=None):
         r = self.rng
@@ -1420,21 +1743,29 @@ class GenC11:
         retv = want == "int"
         return ("L", self.fresh(), ptr_only or r.chance(0.5), retv, pks)
 
-    def expr(self, cats, explicit, chain, want, nomut=False, allow_f7=False):
-        """cats: categories of the incoming arguments as the real code sees them"""
+    def expr(self, cats, explicit, chain, want, nomut=False, allow_f7=False, clss=None):
+        """cats: categories of the incoming arguments as the real code sees them.
+        clss: None, or the static class ('b' av::Obj / 'd' av::DObj) of every incoming argument — then the target is an
+        unbound member functor sigc::mem_fun(&av::Obj::meth) whose object is the first argument that reaches it"""
         r = self.rng
         if not explicit:
             cats = ["xvD" if c == "xvE" else c for c in cats]
         if not chain:
+            if clss is not None:
+                m = self.memleaf(cats, clss, want, nomut)
+                if m is not None:
+                    return m
             return self.leaf(cats, want, nomut)
         kind, rest = chain[0], chain[1:]
         pos = None
+        bspec = None
         if isinstance(kind, tuple):
+            bspec = kind[2] if len(kind) > 2 else None      # ("Bi", pos, (bound kind, class)): one bound object as given
             kind, pos = kind[0], (kind[1] if len(kind) > 1 else None)
         n = len(cats)
 
         def skip():
-            return self.expr(cats, explicit, rest, want, nomut, allow_f7)
+            return self.expr(cats, explicit, rest, want, nomut, allow_f7, clss)
 
         if kind in ("Bi", "B", "Hi", "H"):
             if "xvE" in cats or ("xvD" in cats and not allow_f7):
@@ -1447,16 +1778,25 @@ class GenC11:
                 if k < 1:
                     return skip()
                 loc = -1 if kind == "B" else (pos if pos is not None and pos <= n else r.below(n + 1))
-                bs = tuple(self.bound() for _ in range(k))
+                if bspec is not None:
+                    bs = (self.bound(bspec[0], bspec[1]),)
+                elif clss is not None:
+                    bs = tuple(self.bound(None, r.choice("bd")) for _ in range(k))
+                else:
+                    bs = tuple(self.bound() for _ in range(k))
                 p = n if loc == -1 else loc
                 add = ["clv" if b[0] == "c" else "lv" for b in bs]
-                return ("B", loc, bs, self.expr(after[:p] + add + after[p:], False, rest, want, nomut, allow_f7))
+                cl2 = None if clss is None else list(clss[:p]) + [b[3] for b in bs] + list(clss[p:])
+                return ("B", loc, bs, self.expr(after[:p] + add + after[p:], False, rest, want, nomut, allow_f7, cl2))
             if n < 1:
                 return skip()
             loc = -1 if kind == "H" else (pos if pos is not None and pos < n else r.below(n))
             idx = n - 1 if loc == -1 else loc
-            return ("H", loc, self.expr([c for j, c in enumerate(after) if j != idx], False, rest, want, nomut, allow_f7))
+            cl2 = None if clss is None else [c for j, c in enumerate(clss) if j != idx]
+            return ("H", loc, self.expr([c for j, c in enumerate(after) if j != idx], False, rest, want, nomut, allow_f7, cl2))
         if kind in ("RT", "SL"):
+            if kind == "RT" and clss is not None:
+                return skip()          # retype() of an unbound mem_functor has no T_type for the object: not usable
             tys = ""
             for c in cats:
                 legal = LEGAL[c]
@@ -1464,7 +1804,9 @@ class GenC11:
                     legal = "".join(x for x in legal if x in "vc")
                 tys += r.choice(legal)
             if kind == "SL":
-                inner = self.expr([take_cat(t, c) for t, c in zip(tys, cats)], True, rest, want, nomut, allow_f7)
+                inner = self.expr([take_cat(t, c) for t, c in zip(tys, cats)], True, rest, want, nomut, allow_f7, clss)
+                if clss is not None:
+                    return ("SL", tys, inner, "".join(clss))      # the nested slot is declared with the same classes
                 return ("SL", tys, inner)
             if not rest or r.chance(0.4):
                 return ("RT", tys, self.leaf(cats, want, nomut, ptr_only=True, pks=tys))
@@ -1476,23 +1818,23 @@ class GenC11:
         anyw = r.choice(["int", "void"])
         if kind == "C2":
             cs = [named_cat(c) for c in cats]
-            g1 = self.expr(cs, False, rest, "int", True, allow_f7)
+            g1 = self.expr(cs, False, rest, "int", True, allow_f7, clss)
             g2 = self.leaf(cs, "int", True)
             return wrap(("C2", r.below(5), g1, g2))
         if kind == "RR":
-            return wrap(("RR", self.expr(cats, False, rest, "int", nomut, allow_f7)))
+            return wrap(("RR", self.expr(cats, False, rest, "int", nomut, allow_f7, clss)))
         if kind == "HR":
             if want == "int":
                 return skip()
-            return ("HR", self.expr(cats, False, rest, anyw, nomut, allow_f7))
+            return ("HR", self.expr(cats, False, rest, anyw, nomut, allow_f7, clss))
         if kind == "BR":
-            return wrap(("BR", 500 + r.below(100), self.expr(cats, False, rest, anyw, nomut, allow_f7)))
+            return wrap(("BR", 500 + r.below(100), self.expr(cats, False, rest, anyw, nomut, allow_f7, clss)))
         if kind == "EC":
-            return ("EC", self.expr(cats, False, rest, want, nomut, allow_f7))
+            return ("EC", self.expr(cats, False, rest, want, nomut, allow_f7, clss))
         if kind == "TO":
-            return ("TO", self.expr(cats, False, rest, want, nomut, allow_f7))
+            return ("TO", self.expr(cats, False, rest, want, nomut, allow_f7, clss))
         if kind == "C1":
-            return wrap(("C1", r.below(5), self.expr(cats, False, rest, "int", nomut, allow_f7)))
+            return wrap(("C1", r.below(5), self.expr(cats, False, rest, "int", nomut, allow_f7, clss)))
         raise ValueError(kind)
 
     def case(self, sig, nslots, chains, kind=None, allow_f7=False):
@@ -1511,3 +1853,23 @@ class GenC11:
                 cats = [named_cat(c) for c in cats]
             slots.append(self.expr(cats, True, chains[s], "int" if kind == "I" else "void", False, allow_f7))
         return {"kind": kind, "sig": sig, "vals": tuple(vals), "slots": tuple(slots)}
+
+    def mem_case(self, sig, cls, route, chains, kind=None):
+        """targets are unbound member functors sigc::mem_fun(&av::Obj::meth) / cmeth; `cls`: static class of the emitter's
+        object per position ('b' av::Obj, 'd' av::DObj); route "G" signal emission, "S" one slot called, "D" the functor
+        called directly with lvalues.  No `T&&` positions."""
+        r = self.rng
+        self.nid = 0
+        self.nb = 0
+        if kind is None:
+            kind = r.choice("VI")
+        vals = [7 + 10 * i + r.below(5) for i in range(len(sig))]
+        slots = []
+        for ch in chains:
+            if route == "D":
+                cats = ["clv" if k == "c" else "lv" for k in sig]
+                slots.append(self.expr(cats, False, ch, "int" if kind == "I" else "void", False, False, list(cls)))
+            else:
+                cats = [take_cat(k, "lv") for k in sig]
+                slots.append(self.expr(cats, True, ch, "int" if kind == "I" else "void", False, False, list(cls)))
+        return {"kind": kind, "sig": sig, "vals": tuple(vals), "slots": tuple(slots), "cls": cls, "route": route}
